@@ -6,6 +6,7 @@ import (
 	"database/sql"
 	"fmt"
 	"os"
+	"path/filepath"
 	"runtime"
 	"strings"
 	"sync"
@@ -57,6 +58,10 @@ type spec struct {
 	// types (context.WithCancel then needs a goroutine to watch it, which
 	// lives until the derived context is cancelled)
 	ForeignCtx bool `json:",omitempty"`
+	// ViaLink: database/sql gets the file under a name that leads through a
+	// symbolic link to a directory and "..": the kernel resolves the link
+	// first, so <dir>/lnk/../x is <dir>/nest/x (lnk -> nest/deep), not <dir>/x
+	ViaLink bool `json:",omitempty"`
 }
 
 // foreignCtx is a context.Context implemented outside package context.
@@ -104,6 +109,7 @@ func TestC19Driver(t *testing.T) {
 			s.Yields = rapid.IntRange(0, 50).Draw(t, "yields")
 			s.Corrupt = rapid.IntRange(0, 1000).Draw(t, "corrupt")
 			s.ForeignCtx = rapid.IntRange(0, 2).Draw(t, "foreignctx") == 0
+			s.ViaLink = rapid.IntRange(0, 3).Draw(t, "vialink") == 0
 			return s
 		},
 		Run: run,
@@ -164,6 +170,23 @@ func renderAny(vs []interface{}) string {
 
 func run(r *vt.Run, t vt.TB, s spec) {
 	path := env.NewPath()
+	dsn := path
+	if s.ViaLink {
+		nest := filepath.Join(env.Dir, "nest")
+		if err := os.MkdirAll(filepath.Join(nest, "deep"), 0o755); err != nil {
+			r.Harness(t, "mkdir: %v", err)
+		}
+		lnk := filepath.Join(env.Dir, "lnk")
+		if _, err := os.Lstat(lnk); err != nil {
+			if err := os.Symlink(filepath.Join(nest, "deep"), lnk); err != nil {
+				r.Harness(t, "symlink: %v", err)
+			}
+		}
+		base := filepath.Base(path)
+		path = filepath.Join(nest, base)
+		dsn = env.Dir + "/lnk/../" + base // (not joined: Join would resolve the ".." on paper)
+		r.Count("database-sql-name-through-a-linked-directory", 1)
+	}
 	defer sqdb.Remove(path)
 	created, _ := e1.Build(r, t, env, s.DB, path)
 	if !created[0] {
@@ -325,7 +348,7 @@ func run(r *vt.Run, t vt.TB, s spec) {
 	r.Case(s, s.Plan != "all" || s.Bad != "" || len(want) > 0, "plan:"+s.Plan, "bad:"+s.Bad, fmt.Sprintf("star=%v", s.Star >= 0 || len(s.Pick) == 0), fmt.Sprintf("rows<=%d", bucket(len(want))))
 
 	before := producerGoroutines()
-	db, err := sql.Open("sqlittle", path)
+	db, err := sql.Open("sqlittle", dsn)
 	if err != nil {
 		r.Harness(t, "sql.Open: %v", err)
 	}
